@@ -234,6 +234,15 @@ macro_rules! float_lift {
             if c.is_some() != <D as SupersetOf<$fl>>::is_in_subset(&x) || c.map_or(false, |c| !(c == want || (c.is_nan() && want.is_nan()))) {
                 $st.violation(Violation { sig: format!("lift {name} to_subset"), case: json!({"conversion": name, "value": parts_to_json(&p)}), what: "to_subset: not coherent with is_in_subset / the real part".into() });
             }
+            // "extracting a float yields the real part": whether the checked extraction succeeds may
+            // depend on the real part only - the same number with its derivative parts dropped must
+            // give the same answer (and both float widths are asked through all_widths!)
+            $st.evaluations += 1;
+            let konst: D = <D as From<F>>::from(p.vals[0]);
+            let ck: Option<$fl> = <D as SupersetOf<$fl>>::to_subset(&konst);
+            if ck.is_some() != c.is_some() || <D as SupersetOf<$fl>>::is_in_subset(&konst) != <D as SupersetOf<$fl>>::is_in_subset(&x) {
+                $st.violation(Violation { sig: format!("lift {name} extraction depends on derivative parts"), case: json!({"conversion": name, "value": parts_to_json(&p)}), what: format!("checked extraction of a float: is_some() = {} for the number but {} for the constant with the same real part", c.is_some(), ck.is_some()) });
+            }
         }
     }};
 }
@@ -513,7 +522,7 @@ fn main() {
         mode: cli.mode,
         seed: cli.seed,
         start,
-        rule: "Dual, DualVec, Dual2, Dual2Vec x (F,F') in {f32,f64}^2 x static dims 0..6 and dynamic lengths 0..6 x every presence pattern x a sweep of the part alphabet {0, 1.5, 1/3, 1e-40 (underflows in f32), 1e40 (overflows), -2.25} x every method: to_superset, from_superset, from_superset_unchecked, is_in_subset (SubsetOf), to_subset, from_subset, is_in_subset (SupersetOf), lifting/extracting f32 and f64, nalgebra::convert / try_convert / convert_unchecked / Matrix::cast on 2x2 static and 2x3 dynamic matrices of dual numbers; a counting global allocator checks that the live heap bytes return to their level after the enumeration is run again and dropped (no leak). Non-trivial: every value (all carry derivative parts or presence patterns).".into(),
+        rule: "Dual, DualVec, Dual2, Dual2Vec x (F,F') in {f32,f64}^2 x static dims 0..6 and dynamic lengths 0..6 x every presence pattern x a sweep of the part alphabet {0, 1.5, 1/3, 1e-40 (underflows in f32), 1e40 (overflows), -2.25} x every method: to_superset, from_superset, from_superset_unchecked, is_in_subset (SubsetOf), to_subset, from_subset, is_in_subset (SupersetOf), lifting/extracting f32 and f64 (the checked extraction must answer as for the constant with the same real part), nalgebra::convert / try_convert / convert_unchecked / Matrix::cast on 2x2 static and 2x3 dynamic matrices of dual numbers; a counting global allocator checks that the live heap bytes return to their level after the enumeration is run again and dropped (no leak). Non-trivial: every value (all carry derivative parts or presence patterns).".into(),
         assumptions: vec![
             "simba contract as the reference model: widening is exact and narrowing back is the identity; from_superset(x).is_some() <=> is_in_subset(x) and the value is the per-part `as` cast; lifting a float gives a constant; extracting gives the real part".into(),
             format!("memory monitors on the reduced enumeration (dims <= 2): miri: {miri}; valgrind: {valgrind}"),
